@@ -708,7 +708,8 @@ def check(ck):
         for dn in dnodes[id(d)]:
             cx = A.arg_or_kw(d, 0, "context")
             rf = A.arg_or_kw(d, 2, "fn_reference_with_args")
-            if cx is None or rf is None:
+            if cx is None or rf is None or not isinstance(strip_cast(cx), ast.Name) or not isinstance(strip_cast(rf), ast.Name):
+                # what is dispatched is the (updated) context and the (rebuilt) list themselves, not something computed from them
                 okd = False
                 continue
             dp = rb.deps(cx, dn)
